@@ -23,6 +23,7 @@ type concProfile struct {
 	mergeKinds                                                                      bool // schema biased to mergeable columns with order-sensitive merges
 	stableRows                                                                      [2]int
 	linkDelay                                                                       int
+	indexers                                                                        int // threads creating bitmap indexes on the primary beside the writers
 }
 
 // genConc materialises a concurrent case: set-up transactions creating the stable rows,
@@ -272,6 +273,17 @@ func genConc(prop string, seed uint64, run int, p concProfile, av avoid) *Case {
 	}
 	for i := 0; i < p.snapshots; i++ {
 		cs.Threads = append(cs.Threads, ThreadProg{Role: "snapshot", Arg: r.Intn(4), Txns: make([]TxnProg, r.Range(1, 2))})
+	}
+	for i := 0; i < p.indexers; i++ {
+		tp := ThreadProg{Role: "indexer"}
+		var t TxnProg
+		for k, n := 0, r.Range(1, 2); k < n; k++ {
+			ix := g.genIndex()
+			ix.Name = fmt.Sprintf("lix%d_%d", i, k)
+			t.Ops = append(t.Ops, Op{Kind: "mkindex", Index: ix})
+		}
+		tp.Txns = []TxnProg{t}
+		cs.Threads = append(cs.Threads, tp)
 	}
 	if p.replicas {
 		cs.Threads = append(cs.Threads, ThreadProg{Role: "applier"})
